@@ -82,3 +82,17 @@ func VerifNewNullChunkSeed(dstFile string, blocksize, max uint64) (Seed, func() 
 	}
 	return s, s.close, nil
 }
+
+// VerifIndexFileRead opens a handle on the file of an index mount and returns its read function (what the
+// FUSE bridge calls for a read request) without mounting anything.
+func VerifIndexFileRead(idx Index, s Store) func(dest []byte, off int64) ([]byte, int) {
+	fh := newIndexFileHandle(idx, s)
+	return func(dest []byte, off int64) ([]byte, int) {
+		res, errno := fh.read(dest, off)
+		if errno != 0 {
+			return nil, int(errno)
+		}
+		b, _ := res.Bytes(make([]byte, len(dest)))
+		return b, 0
+	}
+}
